@@ -200,7 +200,7 @@ def main():
             return {'ok': [x]}
         if use_fork:
             return proc.fork_call(fn, soft=soft * max(1, min(len(rs), 4)))
-        return proc.local_call(fn, soft=soft * max(1, min(len(rs), 4)))
+        return proc.local_call(fn, soft=soft)
 
     def same_violation(cfg, ops, sig, variant):
         res = chain(cfg, ops, variant)
